@@ -669,6 +669,10 @@ class _Universe:
                 t = self.t_opt(depth, True)
             elif st == "optional" and self.has("option") and self.coin(0.5):
                 t = self.t_opt(depth, True)
+            elif st == "default" and self.has("option") and self.coin(0.2):
+                # a defaulted member in the nullable `type: [T, "null"]` spelling (the default then reaches T through Option)
+                inner = self.t_int() if self.coin(0.6) else self.t_scalar()
+                t = {"k": "opt", "t": inner, "idiom": "type"}
             elif self.has("null_props") and st in ("required", "optional") and self.coin(0.12):
                 t = {"k": "null"}
             else:
@@ -1054,6 +1058,24 @@ class _Printer:
 
 
 _WRONG = ["not-a-valid-default", 123456789, True, -1.5, [], {}, None, [1, "x"], {"zz": 1}]
+# integers that a bounded / formatted integer schema does not admit: just outside typical bounds, beyond i64 and at u64::MAX
+_WRONG_INTS = [-1, 256, 65536, -129, 4294967296, 2**63, 2**64 - 1, -2**63 - 1, 1000001, -1000001]
+
+def _deref_type(doc, schema, fuel=8):
+    """the `type` a schema (through $ref / single allOf / nullable spelling) gives its instances, or None"""
+    while isinstance(schema, dict) and fuel > 0:
+        fuel -= 1
+        t = schema.get("type")
+        if isinstance(t, list):
+            t = [x for x in t if x != "null"]
+            t = t[0] if len(t) == 1 else None
+        if t: return t
+        if "$ref" in schema:
+            try: schema = resolve_ref(doc, schema["$ref"])
+            except Exception: return None
+        elif isinstance(schema.get("allOf"), list) and len(schema["allOf"]) == 1: schema = schema["allOf"][0]
+        else: return None
+    return None
 
 
 def gen_universe_ex(rng, size, features=None):
@@ -1081,16 +1103,26 @@ def gen_universe_ex(rng, size, features=None):
             named_default.append(s)
     meta = {"universe": ir, "features": sorted(F), "invalid_defaults": [], "idioms": []}
     # defaults are generated from the finished document (they may need $ref resolution)
-    for s in pr.pending_defaults + named_default:
+    for s in named_default + pr.pending_defaults:
         body = {k: v for k, v in s.items() if k != "default"}
         try:
             s["default"] = gen_valid(rng, doc, body, depth=2)
         except (Unsat, RecursionError):      # unsatisfiable, or a merge of mutually referring allOf definitions: no default
             continue
+        # a property-level default that is the ZERO value of the referenced type while the type has a default of its own
+        if s in pr.pending_defaults and rng.random() < 0.5:
+            refs = [x["$ref"] for x in s.get("allOf", []) if isinstance(x, dict) and "$ref" in x] if "allOf" in s else []
+            tgt = resolve_ref(doc, refs[0]) if len(refs) == 1 else None
+            if isinstance(tgt, dict) and "default" in tgt:
+                for z in ("", 0, False, [], {}):
+                    if canon(z) != canon(tgt["default"]) and lite_valid(doc, body, z):
+                        s["default"] = z; break
     if "invalid_defaults" in F:
         for ptr, body, d in find_defaults(doc):
             if rng.random() < 0.4:
-                bad = [w for w in _WRONG if not lite_valid(doc, body, w)]
+                bad = [w for w in _WRONG + _WRONG_INTS if not lite_valid(doc, body, w)]
+                ints = [w for w in bad if isinstance(w, int) and not isinstance(w, bool)]
+                if ints and _deref_type(doc, body) == "integer" and rng.random() < 0.6: bad = ints     # keep the JSON type: only the range is wrong
                 if bad:
                     doc = ptr_set(doc, ptr + "/default", rng.choice(bad))
                     meta["invalid_defaults"].append(ptr + "/default")
